@@ -128,8 +128,17 @@ impl Scenario for ProgramLockstep {
                         let rj = block_step(reps[0].as_mut());
                         crate::machine::set_arena_size(0);
                         let oj = crate::capture::take();
+                        let bank_before = reps[1].rom_bank();
+                        reps[1].trace_start();
                         let rn = block_step(reps[1].as_mut());
                         let on = crate::capture::take();
+                        // a derailed program can end up running a block in the switchable bank that remaps that bank (pushes with the
+                        // stack in 0x2000-0x7FFF, stores through a stray HL): the known-finding class of C01/C03
+                        let bank_writes = reps[1].trace_take().iter().filter(|e| e.0 == 1 && e.1 >= 0x2000 && e.1 < 0x8000).count();
+                        let self_switch = pre_state == RUN && (0x4000..0x8000).contains(&pre.ip) && case.get("cart_type") != 0 && bank_writes > 0 && (reps[1].rom_bank() != bank_before || bank_writes >= 2);
+                        if self_switch {
+                            ctx.cov.hit("probe.block_remapped_its_own_bank");
+                        }
                         if arena > 0 && reps[0].cache_entries().len() < entries_before {
                             ctx.cov.hit("fault.arena_full_cache_emptied");
                         }
@@ -145,7 +154,7 @@ impl Scenario for ProgramLockstep {
                                     break 'ops;
                                 }
                                 let who = if rj.is_err() { "jit" } else { "non-jit" };
-                                out.push(Violation::new("C04", format!("C04/only-one-build-panicked/{}/{}", who, msg_of(a)), format!("op {} step {} (pc {:#06x}): only the {} build panicked: {}", opi, steps, pre.ip, who, a)));
+                                out.push(Violation::new("C04", if self_switch { "C04/block-in-switchable-bank-writes-bank-register".to_string() } else { format!("C04/only-one-build-panicked/{}/{}", who, msg_of(a)) }, format!("op {} step {} (pc {:#06x}): only the {} build panicked: {}", opi, steps, pre.ip, who, a)));
                                 break 'ops;
                             }
                             _ => {}
@@ -153,11 +162,11 @@ impl Scenario for ProgramLockstep {
                         let sj = reps[0].snap(true);
                         let sn = reps[1].snap(true);
                         if let Some(field) = sj.diff_field(&sn, &[]) {
-                            out.push(Violation::new("C04", format!("C04/diverged/{}", field), format!("op {} step {} (block at pc {:#06x}, run state {}): jit vs non-jit build: {}", opi, steps, pre.ip, pre_state, sj.diff(&sn, &[]).unwrap())));
+                            out.push(Violation::new("C04", if self_switch { "C04/block-in-switchable-bank-writes-bank-register".to_string() } else { format!("C04/diverged/{}", field) }, format!("op {} step {} (block at pc {:#06x}, run state {}): jit vs non-jit build: {}", opi, steps, pre.ip, pre_state, sj.diff(&sn, &[]).unwrap())));
                             break 'ops;
                         }
                         if oj != on {
-                            out.push(Violation::new("C04", "C04/diverged/serial-output".to_string(), format!("op {} step {} (pc {:#06x}): bytes written to fd 1: jit {:02x?} vs non-jit {:02x?}", opi, steps, pre.ip, &oj[..oj.len().min(32)], &on[..on.len().min(32)])));
+                            out.push(Violation::new("C04", if self_switch { "C04/block-in-switchable-bank-writes-bank-register".to_string() } else { "C04/diverged/serial-output".to_string() }, format!("op {} step {} (pc {:#06x}): bytes written to fd 1: jit {:02x?} vs non-jit {:02x?}", opi, steps, pre.ip, &oj[..oj.len().min(32)], &on[..on.len().min(32)])));
                             break 'ops;
                         }
                         if !on.is_empty() {
